@@ -171,6 +171,7 @@ func multiValued() []sample {
 // id as issuer — inputs that REFER to each other, so that anything one inspection remembers about a key (an owner, a
 // verification result) can surface in the description of a later package, and the other way round
 func signedByKnownKey(r *rng) (keys [][]byte, rpms [][]byte) {
+	sigLayout, sigLastZero = 0, false
 	fs := pgpKeyFactories()
 	for _, fi := range []int{0, 6 % len(fs)} {
 		p := fs[fi](1700000000)
